@@ -4422,6 +4422,13 @@ def bundle_readpath(P, R, L):
     R.once(src3_level_iterator_file_selection, P, R, L)
     R.once(wrap1_delegation, P, R, L)
     R.once(pair13_index_key_provenance, P, R, L)
+    from . import blind
+    R.clause("BSRCH-1", "the binary searches over block entries and level files are lower-bound searches (lo = mid + 1 only behind `element < target`)")
+    R.once(blind.bsrch1_lower_bound_searches, P, R, L)
+    R.clause("BLK-1", "the block iterator's cursor: one step behind is_valid(), parked at len when a step is refused, first = 0, last = len - 1")
+    R.once(blind.blk1_block_cursor, P, R, L)
+    R.clause("MRG-1", "the merging iterator makes the child with the strictly smallest (forward) / largest (backward) key current, looking at every child")
+    R.once(blind.mrg1_merge_selection, P, R, L)
 
 
 def bundle_recovery(P, R, L):
